@@ -472,33 +472,42 @@ def r3(ctx, chk):
 
 
 def r4(ctx, chk):
+    """_parser._get_period: 'time' only under RETURN_TIME_AS_PERIOD with a clock time; otherwise the finest part present - decided by
+    evaluating the function for all combinations of (RETURN_TIME_AS_PERIOD, time, day, month, year present)"""
     rule = "C08.R4"
+    import itertools
+    from ..core.minieval import Evaluator, Unknown
     f = ctx.ix.func(P.PARSER + "._get_period")
-    loops = [n for n in iter_own_nodes(f.node) if isinstance(n, ast.For) and isinstance(n.iter, (ast.List, ast.Tuple))]
-    seq = []
-    for lp in loops:
-        try:
-            names = list(ast.literal_eval(lp.iter))
-        except Exception:
-            continue
-        rets = [r for r in ast.walk(lp) if isinstance(r, ast.Return)]
-        val = ast.unparse(rets[0].value) if rets else None
-        if val == ast.unparse(lp.target):
-            val = "<loop variable>"
-        seq.append((names, val))
-    want = [(["time", "day"], "'day'"), (["month", "year"], "<loop variable>")]
-    if not seq:
-        # the decision is not written as loops over literal name lists any more: nothing here to compare with the modelled order
-        chk.error(rule, "_parser._get_period: the period decision is not in the modelled form (loops over literal lists of part names)")
-        return
-    chk.ob(rule, "_get_period: day if a time or day is present, else month, else year", seq == want, "got %s" % seq,
-           key={"function": f.key, "construct": "period order"}, file=f.file, function=f.qual, line=f.node.lineno)
-    stmts = [s_ for s_ in f.node.body if not (isinstance(s_, ast.Expr) and isinstance(s_.value, ast.Constant))]
-    first = stmts[0] if stmts else None
-    ok = isinstance(first, ast.If) and "RETURN_TIME_AS_PERIOD" in ast.unparse(first.test) and "'time'" in ast.unparse(first)
-    chk.ob(rule, "_get_period: 'time' only when RETURN_TIME_AS_PERIOD and a clock time is present", ok, "",
-           key={"function": f.key, "construct": "time period"}, file=f.file, function=f.qual, line=f.node.lineno)
+    wrong, n = [], 0
+    try:
+        for rtp, tm, dy, mo, yr in itertools.product((False, True), repeat=5):
+            have = {"time": tm, "day": dy, "month": mo, "year": yr}
+            if not any(have.values()):
+                continue            # nothing stated: the fallback through _results() is not this rule's subject
 
+            def oracle(e, env, have=have, rtp=rtp):
+                t = " ".join(ast.unparse(e).split())
+                if t in ("self.settings.RETURN_TIME_AS_PERIOD", "self._settings.RETURN_TIME_AS_PERIOD"):
+                    return rtp
+                if isinstance(e, ast.Call) and ast.unparse(e.func) == "getattr" and len(e.args) >= 2 and ast.unparse(e.args[0]) == "self":
+                    k = e.args[1].value if isinstance(e.args[1], ast.Constant) else env.get(getattr(e.args[1], "id", None))
+                    if k in have:
+                        return have[k] or None
+                if isinstance(e, ast.Attribute) and isinstance(e.value, ast.Name) and e.value.id == "self" and e.attr in have:
+                    return have[e.attr] or None
+                raise Unknown(t)
+            got = Evaluator(oracle).call(f.node)
+            want = "time" if (rtp and tm) else "day" if (tm or dy) else "month" if mo else "year"
+            n += 1
+            if got != want:
+                wrong.append(({k for k, v in have.items() if v} | ({"RETURN_TIME_AS_PERIOD"} if rtp else set()), got, want))
+    except Unknown as e_:
+        chk.error(rule, "_parser._get_period: the period is decided by something this rule cannot evaluate (%s)" % e_)
+        return
+    chk.ob(rule, "_get_period: 'time' under RETURN_TIME_AS_PERIOD with a clock time, else day if a time or day is present, else month, else year "
+                 "(%d combinations evaluated)" % n, not wrong, "present -> (period, expected): %s" % [(sorted(a_), b_, c_) for a_, b_, c_ in wrong[:3]],
+           key={"function": f.key, "construct": "period order"}, file=f.file, function=f.qual, line=f.node.lineno)
+    chk.floor(rule, n, 30, "combinations of present parts")
 
 
 def token_conservation_rule(ctx, chk, rule):
